@@ -243,6 +243,25 @@ Fixpoint rline (s : stream) : list word * stream :=
   | l :: ls => (l, ls)
   end.
 
+(* The same two primitives written on the RAW lines (comment words still present), as the C++ does them:
+   _recordRead: a word is taken unless it starts with '#', in which case the rest of its line is dropped;
+   _recordReadVec: lines that are blank or start with '#' are skipped, the words of the data line are taken up to
+   the first word starting with '#'.  [lex] = these lines with comments cut; Proofs_codec.v shows that the raw
+   primitives and the ones above see the same thing. *)
+Definition raw_lex (cs : list ascii) : stream := map (filter nonempty) (segs cs).
+Fixpoint rword_raw (s : stream) : option word * stream :=
+  match s with
+  | [] => (None, [])
+  | [] :: ls => rword_raw ls
+  | (w :: l) :: ls => if is_comment w then rword_raw ls else (Some w, l :: ls)
+  end.
+Fixpoint rline_raw (s : stream) : list word * stream :=
+  match s with
+  | [] => ([], [])
+  | [] :: ls => rline_raw ls
+  | (w :: l) :: ls => if is_comment w then rline_raw ls else (cut_comment (w :: l), ls)
+  end.
+
 Definition reader (A : Type) := stream -> option (A * stream).
 Definition ret {A} (a : A) : reader A := fun s => Some (a, s).
 Definition bind {A B} (r : reader A) (f : A -> reader B) : reader B :=
